@@ -59,94 +59,81 @@ Definition par_split_rs_gen (S : graph) (part : list nat) (second : bool) : list
 Definition par_split_rs (S : graph) (part : list nat) : list label := par_split_rs_gen S part true.
 
 (* ---------- distributed PMIS ---------- *)
+(* What rank r knows about the other ranks (off_proc_states, off_proc_weights, unassigned_off) is kept in arrays
+   indexed by GLOBAL column id; only the entries of its off-process columns (off_proc_column_map) are ever read or
+   written.  Loops over the on-/off-process part of a row or column are loops over the global row / column list
+   filtered by ownership. *)
 Section ParMIS.
 Variable F : Type.
 Variables (zero one : F) (add : F -> F -> F).
 Variable ltb : F -> F -> bool.
+Variables R CL : list (list nat).     (* global off-diagonal rows, global column lists *)
+Notation n := (length R).
 
 Fixpoint of_nat (k : nat) : F := match k with 0 => zero | S j => add (of_nat j) one end.
 Definition fmax (c d : F) : F := if ltb d c then c else d.
 
-(* static data of one rank *)
-Record prank := mkPrank {
-  p_b : nat * nat;
-  p_on : list (nat * list nat);      (* (global row id, on-process off-diagonal row), rows of the block in order *)
-  p_off : list (nat * list nat);     (* (global row id, off-process row) *)
-  p_colmap : list nat;               (* off_proc_column_map *)
-  p_clon : list (nat * list nat);    (* (global col id, rows of the block depending on it), columns of the block *)
-  p_cloff : list (list nat)          (* per off-process column: rows of the block depending on it *)
-}.
-(* what a rank knows about the others + its work lists *)
+(* off_proc_column_map of the rank owning block b *)
+Definition colmap (b : nat * nat) : list nat :=
+  sort_u (flat_map (fun u => filter (fun c => negb (in_block b c)) (nth u R [])) (seq (fst b) (snd b))).
+
 Record pdyn := mkPdyn {
-  d_view : list label;   (* off_proc_states *)
-  d_offw : list F;       (* off_proc_weights *)
-  d_un : list nat;       (* unassigned (global ids) *)
-  d_unoff : list nat;    (* unassigned_off (positions in the column map) *)
+  d_view : list label;   (* off_proc_states, by global id *)
+  d_offw : list F;       (* off_proc_weights, by global id *)
+  d_un : list nat;       (* unassigned *)
+  d_unoff : list nat;    (* unassigned_off (global ids) *)
   d_active : bool        (* still inside the while loop *)
 }.
 
-Definition mk_prank (S : graph) (b : nat * nat) : prank :=
-  let rows := firstn (snd b) (skipn (fst b) (indexed S)) in
-  let on := map (fun ir => (fst ir, on_row b (fst ir) (snd ir))) rows in
-  let off := map (fun ir => (fst ir, off_row b (snd ir))) rows in
-  let colmap := sort_u (flat_map snd off) in
-  let clon := group_by (snd b) (flat_map (fun ir => map (fun c => (c - fst b, fst ir)) (snd ir)) on) in
-  let cloff := group_by (length colmap) (flat_map (fun ir => map (fun c => (index_of c colmap, fst ir)) (snd ir)) off) in
-  mkPrank b on off colmap (combine (seq (fst b) (snd b)) clon) cloff.
-
-Definition lookup (u : nat) (l : list (nat * list nat)) : list nat :=
-  match find (fun p => fst p =? u) l with Some p => snd p | None => [] end.
-
 (* initial_weights: keys, +1 per on-process entry, + the off-process counts reduced through communicate_T *)
-Definition initial_weights (prs : list prank) (keys : list F) : list F :=
-  let w1 := fold_left (fun w pr => fold_left (fun w ir =>
-                fold_left (fun w idx => upd w idx (add (nth idx w zero) one)) (snd ir) w) (p_on pr) w) prs keys in
-  fold_left (fun w pr => fold_left (fun w jc => upd w (fst jc) (add (nth (fst jc) w zero) (of_nat (length (snd jc)))))
-                                   (combine (p_colmap pr) (p_cloff pr)) w) prs w1.
+Definition initial_weights (bs : list (nat * nat)) (keys : list F) : list F :=
+  let w1 := fold_left (fun w b => fold_left (fun w u =>
+                fold_left (fun w idx => upd w idx (add (nth idx w zero) one)) (filter (in_block b) (nth u R [])) w)
+                (seq (fst b) (snd b)) w) bs keys in
+  fold_left (fun w b => fold_left (fun w g =>
+                upd w g (add (nth g w zero) (of_nat (length (filter (in_block b) (nth g CL []))))))
+                (colmap b) w) bs w1.
 
 Definition is_U (l : label) := label_eqb l LU.
 Definition is_moving (l : label) := match l with LU | LNC | LNF => true | _ => false end.   (* a == Unassigned || a > Selected *)
 
-(* the owner of global id g is inside its loop *)
-Definition owner_active (prs : list prank) (dys : list pdyn) (g : nat) : bool :=
-  existsb (fun pd => in_block (p_b (fst pd)) g && d_active (snd pd)) (combine prs dys).
+Definition owner_active (bds : list ((nat * nat) * pdyn)) (g : nat) : bool :=
+  existsb (fun bd => in_block (fst bd) g && d_active (snd bd)) bds.
 
 (* positions selected by the rank holding the off-process column and by the owner coincide:
    (holder inside its loop and cmp(view)) = (owner inside its loop and cmp(owner's state)) *)
-Definition agree (cmp : label -> bool) (first : bool) (prs : list prank) (dys : list pdyn) (st : list label) : bool :=
+Definition agree (cmp : label -> bool) (first : bool) (bds : list ((nat * nat) * pdyn)) (st : list label) : bool :=
   first ||
-  forallb (fun pd =>
-      forallb (fun gl => Bool.eqb (d_active (snd pd) && cmp (snd gl))
-                                  (owner_active prs dys (fst gl) && cmp (nth (fst gl) st LU)))
-              (combine (p_colmap (fst pd)) (d_view (snd pd))))
-    (combine prs dys).
+  forallb (fun bd =>
+      forallb (fun g => Bool.eqb (d_active (snd bd) && cmp (nth g (d_view (snd bd)) LU))
+                                 (owner_active bds g && cmp (nth g st LU)))
+              (colmap (fst bd))) bds.
 
 (* find_max_off_weights *)
-Definition max_off_weights (first : bool) (prs : list prank) (dys : list pdyn) (st : list label) (w : list F) : list F :=
-  fold_left (fun mw pd =>
-      if d_active (snd pd) then
-        fold_left (fun mw gvc =>
-            let '(g, v, col) := gvc in
-            if is_U v || first then
-              upd mw g (fmax (nth g mw zero) (fold_left (fun m idx => if ltb m (nth idx w zero) then nth idx w zero else m) col zero))
-            else mw)
-          (combine (combine (p_colmap (fst pd)) (d_view (snd pd))) (p_cloff (fst pd))) mw
-      else mw)
-    (combine prs dys) (map (fun _ => zero) w).
+Definition maxw (w : list F) (l : list nat) : F :=
+  fold_left (fun m idx => if ltb m (nth idx w zero) then nth idx w zero else m) l zero.
+Definition max_off_weights (first : bool) (bds : list ((nat * nat) * pdyn)) (w : list F) : list F :=
+  fold_left (fun mw bd =>
+      if d_active (snd bd) then
+        fold_left (fun mw g =>
+            if is_U (nth g (d_view (snd bd)) LU) || first then
+              upd mw g (fmax (nth g mw zero) (maxw w (filter (in_block (fst bd)) (nth g CL []))))
+            else mw) (colmap (fst bd)) mw
+      else mw) bds (map (fun _ => zero) w).
 
 (* select_independent_set of one rank *)
-Definition par_sel_ok (pr : prank) (dy : pdyn) (w mw : list F) (u : nat) : bool :=
+Definition par_sel_ok (b : nat * nat) (dy : pdyn) (w mw : list F) (u : nat) : bool :=
   let wu := nth u w zero in
   negb (ltb wu (nth u mw zero)) &&
-  negb (existsb (fun idx => ltb wu (nth idx w zero)) (lookup u (p_on pr))) &&
-  negb (existsb (fun c => ltb wu (nth (index_of c (p_colmap pr)) (d_offw dy) zero)) (lookup u (p_off pr))) &&
-  negb (existsb (fun idx => ltb wu (nth idx w zero)) (lookup u (p_clon pr))).
-Definition par_select (pr : prank) (dy : pdyn) (w mw : list F) (st : list label) : list label * list nat :=
-  fold_left (fun p u => if par_sel_ok pr dy w mw u then (upd (fst p) u LNC, snd p ++ [u]) else p) (d_un dy) (st, []).
+  negb (existsb (fun idx => ltb wu (nth idx w zero)) (filter (in_block b) (nth u R []))) &&
+  negb (existsb (fun c => ltb wu (nth c (d_offw dy) zero)) (filter (fun c => negb (in_block b c)) (nth u R []))) &&
+  negb (existsb (fun idx => ltb wu (nth idx w zero)) (filter (in_block b) (nth u CL []))).
+Definition par_select (b : nat * nat) (dy : pdyn) (w mw : list F) (st : list label) : list label * list nat :=
+  fold_left (fun p u => if par_sel_ok b dy w mw u then (upd (fst p) u LNC, snd p ++ [u]) else p) (d_un dy) (st, []).
 
 (* find_off_proc_states *)
-Definition recv_states (first : bool) (pr : prank) (dy : pdyn) (st : list label) : list label :=
-  map (fun gl => if first || is_U (snd gl) then nth (fst gl) st LU else snd gl) (combine (p_colmap pr) (d_view dy)).
+Definition recv_states (first : bool) (b : nat * nat) (dy : pdyn) (st : list label) : list label :=
+  fold_left (fun view g => if first || is_U (nth g view LU) then upd view g (nth g st LU) else view) (colmap b) (d_view dy).
 Definition set_view (dy : pdyn) (v : list label) : pdyn :=
   mkPdyn v (d_offw dy) (d_un dy) (d_unoff dy) (d_active dy).
 
@@ -161,77 +148,87 @@ Definition par_update_states (w : list F) (st : list label) (un : list nat) : li
     else if ltb (nth u w zero) one || label_eqb (nth u st LU) LNF then (un, upd st u LF, upd w u zero)
     else (un ++ [u], st, w)) un ([], st, w).
 
+(* the per-rank pieces of one pass of the while loop *)
+Definition sel_rank (w mw : list F) (a : list label * list (list nat)) (bd : (nat * nat) * pdyn) :=
+  let '(st, ncls) := a in
+  if d_active (snd bd) then
+    let '(st', ncl) := par_select (fst bd) (snd bd) w mw st in (st', ncls ++ [ncl])
+  else (st, ncls ++ [[]]).
+Definition recv_rank (first : bool) (st : list label) (bd : (nat * nat) * pdyn) : pdyn :=
+  if d_active (snd bd) then set_view (snd bd) (recv_states first (fst bd) (snd bd) st) else snd bd.
+(* rows depending on a new coarse column (own: new_coarse_list; other ranks': view NewSelection) become NewUnselection *)
+Definition mark_rank (st : list label) (bdn : (nat * nat) * pdyn * list nat) : list label :=
+  let '(b, dy, ncl) := bdn in
+  if d_active dy then
+    let st := fold_left (fun st idx => mark_rows st (filter (in_block b) (nth idx CL []))) ncl st in
+    fold_left (fun st g => if label_eqb (nth g (d_view dy) LU) LNC
+                           then mark_rows st (filter (in_block b) (nth g CL [])) else st)
+              (d_unoff dy) st
+  else st.
+(* update_states on the own slice and on the views *)
+Definition upd_rank (a : list pdyn * list label * list F) (bd : (nat * nat) * pdyn) :=
+  let '(dys, st, w) := a in
+  let dy := snd bd in
+  if d_active dy then
+    let '(un, st', w') := par_update_states w st (d_un dy) in
+    let '(unoff, view', offw') := par_update_states (d_offw dy) (d_view dy) (d_unoff dy) in
+    (dys ++ [mkPdyn view' offw' un unoff (match un, unoff with [], [] => false | _, _ => true end)], st', w')
+  else (dys ++ [dy], st, w).
+
 (* one pass of the while loop on all ranks that are still inside it *)
-Definition par_round (first : bool) (prs : list prank) (p : list pdyn * list label * list F)
+Definition par_round (first : bool) (bs : list (nat * nat)) (p : list pdyn * list label * list F)
   : option (list pdyn * list label * list F) :=
   let '(dys, st, w) := p in
-  if negb (agree is_U first prs dys st) then None else
-  let mw := max_off_weights first prs dys st w in
+  if negb (agree is_U first (combine bs dys) st) then None else
+  let mw := max_off_weights first (combine bs dys) w in
   (* select on every active rank; each rank writes its own slice only *)
-  let '(st1, ncls) := fold_left (fun a pd =>
-        let '(st, ncls) := a in
-        if d_active (snd pd) then let '(st', ncl) := par_select (fst pd) (snd pd) w mw st in (st', ncls ++ [ncl])
-        else (st, ncls ++ [[]])) (combine prs dys) (st, []) in
-  if negb (agree is_moving first prs dys st1) then None else
-  let dys1 := map (fun pd => if d_active (snd pd) then set_view (snd pd) (recv_states first (fst pd) (snd pd) st1) else snd pd)
-                  (combine prs dys) in
-  (* rows depending on a new coarse column become NewUnselection *)
-  let st2 := fold_left (fun st pdn =>
-        let '(pr, dy, ncl) := pdn in
-        if d_active dy then
-          let st := fold_left (fun st idx => mark_rows st (lookup idx (p_clon pr))) ncl st in
-          fold_left (fun st j => if label_eqb (nth j (d_view dy) LU) LNC then mark_rows st (nth j (p_cloff pr) []) else st)
-                    (d_unoff dy) st
-        else st) (combine (combine prs dys1) ncls) st1 in
-  if negb (agree is_moving first prs dys1 st2) then None else
-  let dys2 := map (fun pd => if d_active (snd pd) then set_view (snd pd) (recv_states first (fst pd) (snd pd) st2) else snd pd)
-                  (combine prs dys1) in
-  (* update_states on the own slice and on the views *)
-  let '(dys3, st3, w3) := fold_left (fun a pd =>
-        let '(dys, st, w) := a in
-        let dy := snd pd in
-        if d_active dy then
-          let '(un, st', w') := par_update_states w st (d_un dy) in
-          let '(unoff, view', offw') := par_update_states (d_offw dy) (d_view dy) (d_unoff dy) in
-          (dys ++ [mkPdyn view' offw' un unoff (match un, unoff with [], [] => false | _, _ => true end)], st', w')
-        else (dys ++ [dy], st, w)) (combine prs dys2) ([], st2, w) in
-  Some (dys3, st3, w3).
+  let '(st1, ncls) := fold_left (sel_rank w mw) (combine bs dys) (st, []) in
+  if negb (agree is_moving first (combine bs dys) st1) then None else
+  let dys1 := map (recv_rank first st1) (combine bs dys) in
+  let st2 := fold_left mark_rank (combine (combine bs dys1) ncls) st1 in
+  if negb (agree is_moving first (combine bs dys1) st2) then None else
+  let dys2 := map (recv_rank first st2) (combine bs dys1) in
+  Some (fold_left upd_rank (combine bs dys2) ([], st2, w)).
 
-Fixpoint par_loop (fuel : nat) (prs : list prank) (p : list pdyn * list label * list F) : option (list pdyn * list label * list F) :=
+Fixpoint par_loop (fuel : nat) (bs : list (nat * nat)) (p : list pdyn * list label * list F)
+  : option (list pdyn * list label * list F) :=
   if existsb d_active (fst (fst p)) then
     match fuel with
     | 0 => None
-    | S f => match par_round false prs p with Some p' => par_loop f prs p' | None => None end
+    | S f => match par_round false bs p with Some p' => par_loop f bs p' | None => None end
     end
   else Some p.
 
 (* pmis_main_loop up to the first pass of the while loop (always executed) *)
-Definition par_pmis_start (prs : list prank) (st0 : list label) (keys : list F) : list pdyn * list label * list F :=
-  let w0 := initial_weights prs keys in
+Definition par_pmis_start (bs : list (nat * nat)) (st0 : list label) (keys : list F) : list pdyn * list label * list F :=
+  let w0 := initial_weights bs keys in
   (* rows depending on an already selected column become fine (HMIS) *)
-  let st1 := fold_left (fun st pr => fold_left (fun st cc =>
-                 if label_eqb (nth (fst cc) st LU) LC
-                 then fold_left (fun st row => if is_U (nth row st LU) then upd st row LF else st) (snd cc) st
-                 else st) (p_clon pr) st) prs st0 in
-  let '(uns, st2, w2) := fold_left (fun a pr =>
+  let st1 := fold_left (fun st b => fold_left (fun st i =>
+                 if label_eqb (nth i st LU) LC
+                 then fold_left (fun st row => if is_U (nth row st LU) then upd st row LF else st)
+                                (filter (in_block b) (nth i CL [])) st
+                 else st) (seq (fst b) (snd b)) st) bs st0 in
+  let '(uns, st2, w2) := fold_left (fun a b =>
         let '(uns, st, w) := a in
         let '(un, st', w') := fold_left (fun q i =>
               let '(un, st, w) := q in
               if is_U (nth i st LU) && ltb (nth i w zero) one then (un, upd st i LF, upd w i zero)
               else if is_U (nth i st LU) then (un ++ [i], st, w)
-              else (un, st, upd w i zero)) (seq (fst (p_b pr)) (snd (p_b pr))) ([], st, w) in
-        (uns ++ [un], st', w')) prs ([], st1, w0) in
-  let dys := map (fun pu =>
-        let view := map (fun g => nth g st2 LU) (p_colmap (fst pu)) in
-        let unoff := filter (fun j => is_U (nth j view LU)) (seq 0 (length view)) in
-        mkPdyn view (map (fun g => nth g w2 zero) (p_colmap (fst pu))) (snd pu) unoff true) (combine prs uns) in
+              else (un, st, upd w i zero)) (seq (fst b) (snd b)) ([], st, w) in
+        (uns ++ [un], st', w')) bs ([], st1, w0) in
+  let dys := map (fun bu =>
+        let cm := colmap (fst bu) in
+        let view := fold_left (fun v g => upd v g (nth g st2 LU)) cm (repeat LU n) in
+        let offw := fold_left (fun v g => upd v g (nth g w2 zero)) cm (repeat zero n) in
+        mkPdyn view offw (snd bu) (filter (fun g => is_U (nth g view LU)) cm) true) (combine bs uns) in
   (dys, st2, w2).
 
-Definition par_pmis_main (fuel : nat) (prs : list prank) (st0 : list label) (keys : list F)
+Definition par_pmis_main (fuel : nat) (bs : list (nat * nat)) (st0 : list label) (keys : list F)
   : option (list (list label) * list label) :=
-  match par_round true prs (par_pmis_start prs st0 keys) with
-  | Some p => match par_loop fuel prs p with
-              | Some (dys, st, w) => Some (map d_view dys, st)
+  match par_round true bs (par_pmis_start bs st0 keys) with
+  | Some p => match par_loop fuel bs p with
+              | Some (dys, st, w) =>
+                Some (map (fun bd => map (fun g => nth g (d_view (snd bd)) LU) (colmap (fst bd))) (combine bs dys), st)
               | None => None
               end
   | None => None
@@ -241,7 +238,8 @@ End ParMIS.
 Definition par_split_pmis {F} (zero one : F) add ltb (S : graph) (part : list nat) (keys : list F) (fuel : nat)
   : option (list (list label) * list label) :=
   let bs := block_starts 0 part in
-  par_pmis_main F zero one add ltb fuel (map (mk_prank S) bs) (initial_states S bs) keys.
+  let R := off_rows S in
+  par_pmis_main F zero one add ltb R (col_lists R) fuel bs (initial_states S bs) keys.
 
 (* split_hmis = first pass of RS on the diagonal block, reset_boundaries, then the PMIS loop *)
 Definition reset_boundaries (S : graph) (bs : list (nat * nat)) (st : list label) : list label :=
@@ -253,4 +251,5 @@ Definition par_split_hmis {F} (zero one : F) add ltb (S : graph) (part : list na
   : option (list (list label) * list label) :=
   let bs := block_starts 0 part in
   let st0 := reset_boundaries S bs (par_split_rs_gen S part false) in
-  par_pmis_main F zero one add ltb fuel (map (mk_prank S) bs) st0 keys.
+  let R := off_rows S in
+  par_pmis_main F zero one add ltb R (col_lists R) fuel bs st0 keys.
